@@ -23,7 +23,7 @@ from .. import harness as H
 PROP = "C14"
 MOD = "nv.checks.c14"
 TMPL = os.path.join(os.path.dirname(os.path.dirname(os.path.abspath(__file__))), "ch_option_tmpl.py")
-OPTION_PY = "/repo/numpoly/option.py"
+OPTION_PY = os.environ.get("NV_REPO", "/repo") + "/numpoly/option.py"
 
 
 def key_uniformity_guard() -> Tuple[bool, List[str]]:
@@ -50,7 +50,7 @@ def func_lines(path: str) -> Dict[str, int]:
 
 
 def make_harness(workdir: str, first_op: int) -> str:
-    src = open(TMPL).read().replace("FIRST_OP = -1", "FIRST_OP = %d" % first_op)
+    src = open(TMPL).read().replace("FIRST_OP = -1", "FIRST_OP = %d" % first_op).replace('OPTION_PY = "/repo/numpoly/option.py"', "OPTION_PY = %r" % OPTION_PY)
     path = os.path.join(workdir, "ch_option_%s.py" % ("all" if first_op < 0 else first_op))
     with open(path, "w") as f:
         f.write(src)
@@ -117,7 +117,7 @@ def main(argv=None) -> int:
         depths = [3] if quick else [3, 4, 5]
         per = {3: 120, 4: 600, 5: 1500}
         for L in depths:
-            for op in range(7):
+            for op in range(8):
                 p = make_harness(workdir, op)
                 jobs.append((p, "check_history%d" % L, func_lines(p)["check_history%d" % L], per[L] if not quick else 100))
         jobs.append((base, "twin_history3", lines["twin_history3"], 30))
@@ -190,7 +190,7 @@ def main(argv=None) -> int:
             "op-code/payload/prior-state values of a bounded call history; non-trivial = every condition (each quantifies over >= 7^2 histories)",
             bounds={
                 "history_depth": depths,
-                "operation_kinds": 7,
+                "operation_kinds": 8,
                 "option_keys": "retain_names, sort_graded (+display_multiply/default_varname/display_exponent/sort_reverse in the block harness); key-uniformity guard: %s" % uniform,
                 "unknown_name": "symbolic str, len <= 4 (inconclusive unless CrossHair confirms; near-miss names are concrete)",
                 "outside": "histories longer than the depth; option values other than bool/int/str(len<=3)",
